@@ -307,6 +307,19 @@ pub fn generate_c18<W: Write>(c: &mut Cases<W>, rng: &mut Rng, thorough: bool) {
             }
         }
     }
+    // a key above a mebibyte followed by a key that is not above it (lower, or the same key again), and the
+    // sorted control: the order check does not depend on how large the previous key was
+    {
+        let big = vec![0x61u8; 1_100_000];
+        let base = FileCfg { codec: CompressionType::None, level: 0, block_size: 8192, unclamped: false, interval: None, levels: 0 };
+        for levels in [0u8, 1] {
+            let cfg = FileCfg { levels, ..base.clone() };
+            emit(c, &cfg, &[(big.clone(), vec![1u8; 3]), (vec![0x60u8], vec![2u8; 3])], false);
+            emit(c, &cfg, &[(big.clone(), vec![1u8; 3]), (big.clone(), vec![2u8; 3])], false);
+            emit(c, &cfg, &[(vec![0x60u8], vec![2u8; 3]), (big.clone(), vec![1u8; 3]), (vec![0x61u8; 5], vec![])], false);
+            emit(c, &cfg, &[(vec![0x60u8], vec![2u8; 3]), (big.clone(), vec![1u8; 3]), (vec![0x62u8], vec![])], false);
+        }
+    }
     let n = if thorough { 6000 } else { 400 };
     for i in 0..n {
         let cfg = gen_cfg(rng, i % 2 == 0, false);
